@@ -283,6 +283,68 @@ void vf_harness(void) { XdlParser* p; XdlParser_decode(p); VF_CANARY(); }
 )
 UNITS += [decode_unit]
 
+# ---- Json::decode / Xdl::decode: the result is a function of the text alone, so the parser that reads it must be in the state the CONSTRUCTOR establishes -
+# a new parser per call, or a kept one brought back completely.  The constructor and reset() bodies are cut and run on a parser whose every field is arbitrary
+# (what an earlier text may have left); compared are the fields the first character's handling depends on.
+_ps_rules = [(r'lconv\* loc = localeconv\(\);', '', None), (r'_ldp = \*loc->decimal_point;', '', None),
+             (r'_context\.clear\(\);', 'self->ctx_len = 0;', None), (r'_context << (\w+);', r'CTXPUSH(self, \1);', None),
+             (r'_lists\.clear\(\);', 'self->lists_len = 0;', None), (r'_lists << Var\(Var::ARRAY\);', 'LISTPUSH(self);', None),
+             (r'_props\.clear\(\);', 'self->props_len = 0;', None), (r'_buffer\s*=\s*"";', 'self->buf_len = 0;', None), (r'_buffer\.clear\(\);', 'self->buf_len = 0;', None)]
+_dec_rules = [(r'(?<!thread_local )(?<!static )XdlParser parser;', 'P parser_; P* parser = &parser_; NEW_PARSER(parser);', None),
+              (r'static thread_local XdlParser parser;|thread_local static XdlParser parser;|static XdlParser parser;|thread_local XdlParser parser;', 'P* parser = KEPT_PARSER();', None),
+              (r'parser\.reset\(\);', 'XdlParser_reset(parser);', None), (r'return parser\.decode\(\w+\);', '{ DECODE(parser); return; }', 1)]
+fresh_unit = Unit(
+    'Json_decode_parser_state', 'C06',
+    cuts=[Cut('states', X, r'^enum StateN \{', kind='stmt'), Cut('contexts', X, r'^enum ContextN \{', kind='stmt'),
+          Cut('ctor', X, r'^XdlParser::XdlParser\(\)\s*$', members=MEMBERS, rules=_ps_rules),
+          Cut('reset', X, r'^void XdlParser::reset\(\)\s*$', members=MEMBERS, rules=_ps_rules),
+          Cut('jdec', X, r'^Var Json::decode\(const String& json\)\s*$', rules=_dec_rules),
+          Cut('xdec', X, r'^Var Xdl::decode\(const String& xdl\)\s*$', rules=_dec_rules)],
+    text=r'''
+#include "vf_base.h"
+@@states@@
+@@contexts@@
+typedef struct P { int _state, _prevState; bool _inComment; int _unicodeCount; char _ldp; char _unicode[4]; int _wchar;
+                   int ctx_len, ctx0, lists_len, lists0_is_array, props_len, buf_len; } P;
+typedef P XdlParser;
+static void CTXPUSH(P* self, int c) { if (self->ctx_len == 0) self->ctx0 = c; if (self->ctx_len < 1000) self->ctx_len++; }
+static void LISTPUSH(P* self) { if (self->lists_len == 0) self->lists0_is_array = 1; if (self->lists_len < 1000) self->lists_len++; }
+static void XdlParser_ctor(P* self) @@ctor@@
+static void XdlParser_reset(P* self) @@reset@@
+P g_kept; int g_decodes;
+/* a parser object as the language creates it: members default-constructed (empty stacks, empty string), scalars indeterminate, then the constructor body */
+static void NEW_PARSER(P* p) { P fresh; fresh.ctx_len = 0; fresh.lists_len = 0; fresh.props_len = 0; fresh.buf_len = 0; *p = fresh; XdlParser_ctor(p); }
+/* a parser kept between calls: whatever an earlier text left in it */
+static P* KEPT_PARSER(void) { return &g_kept; }
+static void DECODE(P* p) {
+  P ref; NEW_PARSER(&ref);
+  __CPROVER_assert(p->ctx_len == ref.ctx_len && (p->ctx_len == 0 || p->ctx0 == ref.ctx0), "decode starts with the context stack of a new parser");
+  __CPROVER_assert(p->_state == ref._state, "decode starts in the state of a new parser");
+  __CPROVER_assert(p->_inComment == ref._inComment, "decode does not start inside a comment left by an earlier text");
+  __CPROVER_assert(p->_unicodeCount == ref._unicodeCount, "decode does not start inside a \\u escape left by an earlier text");
+  __CPROVER_assert(p->lists_len == ref.lists_len && (p->lists_len == 0 || p->lists0_is_array == ref.lists0_is_array), "decode starts with the value stack of a new parser");
+  __CPROVER_assert(p->props_len == ref.props_len, "decode starts with no pending property names");
+  __CPROVER_assert(p->buf_len == ref.buf_len, "decode starts with an empty token buffer");
+  g_decodes++; }
+static void Json_decode(void) @@jdec@@
+static void Xdl_decode(void) @@xdec@@
+void vf_harness(void) {
+  /* g_kept: every field arbitrary (nondet static lifetime object) */
+  P any; g_kept = any; __CPROVER_assume(g_kept.ctx_len >= 0 && g_kept.ctx_len <= 1000 && g_kept.lists_len >= 0 && g_kept.lists_len <= 1000 && g_kept.props_len >= 0 && g_kept.buf_len >= 0);
+  Json_decode(); Xdl_decode();
+  __CPROVER_assert(g_decodes == 2, "both entry points hand the text to a parser");
+  VF_CANARY();
+}
+''',
+    entry=None, unwind=3, floor=8, expect=['assertion'],
+    planted=[('ctor', r'self->_inComment = false;', '')],
+    desc='Json::decode and Xdl::decode hand the text to a parser that is, field by field (context stack, state, comment flag, \\u counter, value stack, pending names, token buffer), in the state '
+         'the constructor establishes - a new object per call, or a kept one that reset() brings back completely from ANY earlier state',
+    functions=['Json::decode', 'Xdl::decode', 'XdlParser::XdlParser', 'XdlParser::reset'],
+    trusted=['Stack/String members abstracted to their length and first element', '_prevState, _wchar, _unicode[] are not compared: each is written before it is read (lines 357/389, 614, 587 of Xdl.cpp)'],
+)
+UNITS += [fresh_unit]
+
 for _u in UNITS:
     if not _u.replay:
         _u.replay = replay.battery('C05/driver.cpp', ['battery'])    # shared JSON/XDL driver
